@@ -240,7 +240,14 @@ func (w *World) translateFuncPass(m *Module, key string, fd *ast.FuncDecl, panic
 				return "", t.errf(f.Type, "unsupported pointer result")
 			}
 			if len(f.Names) > 0 {
-				return "", t.errf(f, "unsupported named results")
+				// named results are accepted only as documentation: every return must list its values and
+				// the body must not mention the result names (no bare return, no assignment to them)
+				if err := t.namedResultsUnused(fd, f.Names); err != nil {
+					return "", err
+				}
+				for range f.Names[1:] {
+					rts = append(rts, rt)
+				}
 			}
 			rts = append(rts, rt)
 		}
@@ -303,6 +310,52 @@ func (w *World) translateFuncPass(m *Module, key string, fd *ast.FuncDecl, panic
 	b.WriteString(indent(body, "  "))
 	b.WriteString(".\n")
 	return b.String(), nil
+}
+
+// namedResultsUnused: the function's named results are never read, assigned or returned implicitly.
+func (t *fnTr) namedResultsUnused(fd *ast.FuncDecl, names []*ast.Ident) error {
+	var err error
+	isRes := map[string]bool{}
+	for _, n := range names {
+		isRes[n.Name] = true
+	}
+	ast.Inspect(fd.Body, func(n ast.Node) bool {
+		if err != nil {
+			return false
+		}
+		switch n := n.(type) {
+		case *ast.FuncLit:
+			return false
+		case *ast.ReturnStmt:
+			if len(n.Results) == 0 {
+				err = t.errf(n, "unsupported bare return with named results")
+			}
+		case *ast.SelectorExpr:
+			// x.f: only x can refer to a result variable
+			ast.Inspect(n.X, func(m ast.Node) bool {
+				if id, ok := m.(*ast.Ident); ok && isRes[id.Name] && err == nil {
+					err = t.errf(id, "unsupported use of the named result %s", id.Name)
+				}
+				return true
+			})
+			return false
+		case *ast.KeyValueExpr:
+			// {f: v}: the key is a field name
+			ast.Inspect(n.Value, func(m ast.Node) bool {
+				if id, ok := m.(*ast.Ident); ok && isRes[id.Name] && err == nil {
+					err = t.errf(id, "unsupported use of the named result %s", id.Name)
+				}
+				return true
+			})
+			return false
+		case *ast.Ident:
+			if isRes[n.Name] {
+				err = t.errf(n, "unsupported use of the named result %s", n.Name)
+			}
+		}
+		return true
+	})
+	return err
 }
 
 func baseName(p string) string { return p[strings.LastIndex(p, "/")+1:] }
@@ -497,14 +550,70 @@ func (t *fnTr) stmts(list []ast.Stmt, env *Env, k cont) (string, error) {
 		return joinLets(lets, r), nil
 	case *ast.RangeStmt:
 		return "", t.errf(s, "unsupported statement: range loop")
-	case *ast.SwitchStmt, *ast.TypeSwitchStmt:
-		return "", t.errf(s, "unsupported statement: switch")
+	case *ast.SwitchStmt:
+		ifs, err := t.switchAsIf(s)
+		if err != nil {
+			return "", err
+		}
+		if ifs == nil {
+			return next(env)
+		}
+		return t.stmts(append([]ast.Stmt{ifs}, rest...), env, k)
+	case *ast.TypeSwitchStmt:
+		return "", t.errf(s, "unsupported statement: type switch")
 	case *ast.IncDecStmt:
 		return "", t.errf(s, "unsupported statement: ++/--")
 	case *ast.GoStmt, *ast.DeferStmt, *ast.SelectStmt, *ast.SendStmt:
 		return "", t.errf(s, "unsupported statement: concurrency/defer")
 	}
 	return "", t.errf(s, "unsupported statement %T", s)
+}
+
+// switchAsIf rewrites a tagless `switch { case c1: B1 ... default: Bd }` (no init, no fallthrough/break, one
+// condition per case) into the equivalent if / else-if chain; nil for an empty switch.
+func (t *fnTr) switchAsIf(s *ast.SwitchStmt) (ast.Stmt, error) {
+	if s.Init != nil || s.Tag != nil {
+		return nil, t.errf(s, "unsupported statement: switch with an init statement or a tag")
+	}
+	var cases []*ast.CaseClause
+	var def *ast.CaseClause
+	for _, c := range s.Body.List {
+		cc := c.(*ast.CaseClause)
+		bad := false
+		for _, b := range cc.Body {
+			ast.Inspect(b, func(n ast.Node) bool {
+				switch n := n.(type) {
+				case *ast.FuncLit, *ast.ForStmt, *ast.RangeStmt:
+					return false
+				case *ast.BranchStmt:
+					_ = n
+					bad = true
+				}
+				return true
+			})
+		}
+		if bad {
+			return nil, t.errf(cc, "unsupported statement: break/fallthrough/goto inside a switch")
+		}
+		if cc.List == nil {
+			def = cc
+			continue
+		}
+		if len(cc.List) != 1 {
+			return nil, t.errf(cc, "unsupported statement: switch case with several conditions")
+		}
+		cases = append(cases, cc)
+	}
+	var tail ast.Stmt
+	if def != nil {
+		tail = &ast.BlockStmt{Lbrace: def.Pos(), List: def.Body, Rbrace: def.End()}
+	}
+	for i := len(cases) - 1; i >= 0; i-- {
+		cc := cases[i]
+		tail = &ast.IfStmt{If: cc.Pos(), Cond: cc.List[0],
+			Body: &ast.BlockStmt{Lbrace: cc.Pos(), List: cc.Body, Rbrace: cc.End()}, Else: tail}
+	}
+	return tail, nil
 }
 
 func joinLets(lets []string, body string) string {
@@ -661,6 +770,37 @@ func (t *fnTr) assign(s *ast.AssignStmt, env *Env) ([]string, error) {
 		}
 		be := &ast.BinaryExpr{X: s.Lhs[0], Op: op, Y: s.Rhs[0], OpPos: s.TokPos}
 		s = &ast.AssignStmt{Lhs: s.Lhs, Tok: token.ASSIGN, TokPos: s.TokPos, Rhs: []ast.Expr{be}}
+	}
+	if len(s.Rhs) == 1 && len(s.Lhs) > 1 {
+		// a, b, c := f()  with f translated to a tuple-valued definition
+		v, err := t.expr(s.Rhs[0], env)
+		if err != nil {
+			return nil, err
+		}
+		if v.ty.K != KTuple || len(v.ty.Elems) != len(s.Lhs) {
+			return nil, t.errf(s, "unsupported assignment: %d variables from one expression of type %s", len(s.Lhs), v.ty)
+		}
+		tmps := make([]string, len(s.Lhs))
+		for i := range tmps {
+			tmps[i] = t.fresh("tmp")
+		}
+		lets = append(lets, fmt.Sprintf("let '(%s) := %s in", strings.Join(tmps, ", "), v.code))
+		for i, l := range s.Lhs {
+			id, ok := l.(*ast.Ident)
+			if !ok {
+				return nil, t.errf(l, "unsupported assignment target in a multi-value assignment")
+			}
+			define := s.Tok == token.DEFINE && !env.inTop(id.Name)
+			if s.Tok == token.ASSIGN && id.Name != "_" && env.lookup(id.Name) == nil {
+				return nil, t.errf(id, "assignment to %s which is not a local variable", id.Name)
+			}
+			ls, err := t.bind(id.Name, val{tmps[i], v.ty.Elems[i]}, env, define, id)
+			if err != nil {
+				return nil, err
+			}
+			lets = append(lets, ls...)
+		}
+		return lets, nil
 	}
 	if len(s.Lhs) != len(s.Rhs) {
 		return nil, t.errf(s, "unsupported assignment: %d variables from %d expressions (multi-value call)", len(s.Lhs), len(s.Rhs))
